@@ -161,6 +161,45 @@ Proof.
   eapply perm_trans; [apply ZSort.Permuted_sort|]. rewrite Ha. apply Permutation_sym, ZSort.Permuted_sort.
 Qed.
 
+(* ---- parameter with a non-default memory layout (strides pstr): the observed blocks address, exactly once,
+        the storage locations loc(0..numel-1) of the parameter's elements; every dim in 1..thr ---------------- *)
+Definition C05_layout_checkb (shape pstr : list Z) (thr : Z) (obs : list view) : bool :=
+  Zs_eqb (ZSort.sort (concat (map view_offsets obs))) (ZSort.sort (map (loc shape pstr) (Zrange (prodl shape))))
+  && forallb (fun v => forallb (fun d => (1 <=? d) && (d <=? thr)) (vsizes v)) obs.
+
+Theorem C05_layout_checkb_sound shape pstr thr obs : C05_layout_checkb shape pstr thr obs = true ->
+  Permutation (concat (map view_offsets obs)) (map (loc shape pstr) (Zrange (prodl shape)))
+  /\ Forall (fun v => Forall (fun d => 1 <= d <= thr) (vsizes v)) obs.
+Proof.
+  unfold C05_layout_checkb. intros H. apply andb_true_iff in H as [H1 H2]. apply Zs_eqb_eq in H1. split.
+  - eapply perm_trans; [apply ZSort.Permuted_sort|]. rewrite H1. apply Permutation_sym, ZSort.Permuted_sort.
+  - apply Forall_forall. intros v Hv. rewrite forallb_forall in H2. specialize (H2 v Hv).
+    apply Forall_forall. intros d Hd. rewrite forallb_forall in H2. specialize (H2 d Hd). lia.
+Qed.
+
+(* gradient block k carries exactly the logical indices whose storage locations parameter block k addresses *)
+Definition C05_layout_grad_checkb (shape pstr : list Z) (obs_p : list view) (obs_g : list (list Z * list Z)) : bool :=
+  forallb2 (fun p g => Zs_eqb (ZSort.sort (view_offsets p)) (ZSort.sort (map (loc shape pstr) (snd g)))
+                       && Zs_eqb (vsizes p) (fst g)) obs_p obs_g.
+
+Theorem C05_layout_grad_checkb_sound shape pstr obs_p obs_g : C05_layout_grad_checkb shape pstr obs_p obs_g = true ->
+  Forall2 (fun p g => Permutation (view_offsets p) (map (loc shape pstr) (snd g)) /\ vsizes p = fst g) obs_p obs_g.
+Proof.
+  unfold C05_layout_grad_checkb. revert obs_g; induction obs_p as [|p ps IH]; destruct obs_g as [|g gs]; cbn [forallb2];
+    intros H; try discriminate; [constructor|].
+  apply andb_true_iff in H as [H1 H2]. apply andb_true_iff in H1 as [Ha Hb].
+  apply Zs_eqb_eq in Ha, Hb. constructor; [|apply IH; exact H2]. split; [|exact Hb].
+  eapply perm_trans; [apply ZSort.Permuted_sort|]. rewrite Ha. apply Permutation_sym, ZSort.Permuted_sort.
+Qed.
+
+Theorem update_raw_okb_sound bl bases raw : update_raw_okb bl bases raw = true ->
+  length bl = length bases
+  /\ Forall (fun ov => 0 <= fst ov /\ nth (Z.to_nat (fst ov)) raw (-1) = snd ov) (scatter bl (update_dirs bl bases)).
+Proof.
+  unfold update_raw_okb. intros H. apply andb_true_iff in H as [H1 H2]. apply Nat.eqb_eq in H1. split; [exact H1|].
+  apply Forall_forall. intros ov Hov. rewrite forallb_forall in H2. specialize (H2 ov Hov). lia.
+Qed.
+
 (* ---- update_params: the storage holds, at every offset a block addresses, that block's direction ---- *)
 Theorem update_okb_sound bl bases storage : update_okb bl bases storage = true ->
   length (scatter bl (update_dirs bl bases)) = length storage
